@@ -334,7 +334,7 @@ func init() {
 			}
 			// quiescence: give dialer goroutines and the peer a moment
 			var st struct{ total, pool, want, pending int }
-			for i := 0; i < 100; i++ {
+			for i := 0; i < 500; i++ {
 				s := hc.ConnPoolState()
 				st.total, st.pool, st.want, st.pending = s.TotalConnNum, s.PoolConnNum, hc.WantConnectionCount(), hc.PendingRequests()
 				if st.total == st.pool && st.want == 0 && st.pending == 0 && int(atomic.LoadInt32(&peer.live)) == st.pool {
